@@ -233,23 +233,69 @@ Ltac t_done := eapply StX_move; [eassumption|reflexivity|cnts].
 (* ------------------------------------------------------------------ *)
 (* 1. complete_select (2611)                                           *)
 (* ------------------------------------------------------------------ *)
-Lemma complete_select_G result o h0 p0 h p :
-  StX o h0 p0 [] h p -> G o h0 p0 (complete_select result h p).
+(* 09625d4: the select's process sources are forgotten, their stored results released *)
+Lemma assoc_remove_refs i t : forall (a a' : list (nat * option value)) old,
+  assoc_remove t a = (a', old) ->
+  cnt i (await_refs a) =
+  cnt i (await_refs a') + cnt i (match old with Some (Some v) => refs_of v | _ => [] end).
+Proof.
+  induction a as [|[j b] r IH]; intros a' old E; cbn [assoc_remove] in E.
+  - inversion E; subst. unfold await_refs. cbn [flat_map snd app]. rewrite cnt_nil. lia.
+  - destruct (t =? j).
+    + inversion E; subst. unfold await_refs. cbn [flat_map snd]. rewrite !cnt_app.
+      destruct b as [v|]; cbn [app]; rewrite ?cnt_nil; lia.
+    + destruct (assoc_remove t r) as [t' o'] eqn:E'. inversion E; subst.
+      specialize (IH _ _ eq_refl). unfold await_refs in *. cbn [flat_map snd].
+      rewrite !cnt_app. lia.
+Qed.
+
+Lemma await_forget_refs i : forall srcs a acc a' stored,
+  await_forget srcs a acc = (a', stored) ->
+  cnt i (await_refs a) + cnt i (refs_list acc) = cnt i (await_refs a') + cnt i (refs_list stored).
+Proof.
+  induction srcs as [|s r IH]; intros a acc a' stored E; cbn [await_forget] in E.
+  - inversion E; subst. reflexivity.
+  - destruct s; try (apply IH in E; exact E).
+    destruct (assoc_remove pid a) as [a1 old] eqn:E1.
+    apply IH in E. pose proof (assoc_remove_refs i _ _ _ _ E1) as H1.
+    destruct old as [[v|]|]; rewrite ?cnt_refs_list_app, ?cnt_refs_list_cons, ?cnt_refs_list_nil,
+      ?cnt_nil in *; lia.
+Qed.
+
+Lemma complete_select_G fx result o h0 p0 h p :
+  StX o h0 p0 [] h p -> G o h0 p0 (complete_select fx result h p).
 Proof.
   intro S. destruct p as [st lo fr pe mb rs se aw].
   unfold complete_select. apply G_mget; cbv beta. apply G_mput; cbv beta. pcbn.
   destruct se as [[sf si srcs cur start recv]|]; pcbn.
-  - apply G_assoc. destruct recv as [[n m]|].
-    + t_release_vals (refs_of m). t_release (@nil nat).
-      t_retain (refs_of result). apply G_raw_push. apply G_bump_pc. apply G_end_val. t_done.
-    + t_release_vals (@nil nat). apply G_mret.
-      t_retain (refs_of result). apply G_raw_push. apply G_bump_pc. apply G_end_val. t_done.
+  - apply G_assoc. destruct fx.
+    + destruct (await_forget srcs aw []) as [a' stored] eqn:Ef.
+      apply G_assoc. apply G_mget; cbv beta. apply G_assoc. apply G_mput; cbv beta. pcbn.
+      pose proof (fun i => await_forget_refs i _ _ _ _ _ Ef) as Ha.
+      destruct recv as [[n m]|].
+      * eapply G_release_vals with (x := refs_list srcs ++ refs_of m);
+          [eassumption|reflexivity| |intros ? ?; cbv beta].
+        { intro i. specialize (Ha i). rewrite !cnt_proc_refs. pcbn. cbn [sel_refs]. pcbn.
+          rewrite ?cnt_app, ?cnt_refs_list_nil, ?cnt_nil in *. lia. }
+        apply G_assoc. t_release_vals (refs_of m). t_release (@nil nat).
+        t_retain (refs_of result). apply G_raw_push. apply G_bump_pc. apply G_end_val. t_done.
+      * eapply G_release_vals with (x := refs_list srcs);
+          [eassumption|reflexivity| |intros ? ?; cbv beta].
+        { intro i. specialize (Ha i). rewrite !cnt_proc_refs. pcbn. cbn [sel_refs]. pcbn.
+          rewrite ?cnt_app, ?cnt_refs_list_nil, ?cnt_nil in *. lia. }
+        apply G_assoc. t_release_vals (@nil nat). apply G_mret.
+        t_retain (refs_of result). apply G_raw_push. apply G_bump_pc. apply G_end_val. t_done.
+    + apply G_mret. apply G_assoc. destruct recv as [[n m]|].
+      * t_release_vals (refs_of m). t_release (@nil nat).
+        t_retain (refs_of result). apply G_raw_push. apply G_bump_pc. apply G_end_val. t_done.
+      * t_release_vals (@nil nat). apply G_mret.
+        t_retain (refs_of result). apply G_raw_push. apply G_bump_pc. apply G_end_val. t_done.
   - apply G_mret.
     t_retain (refs_of result). apply G_raw_push. apply G_bump_pc. apply G_end_val. t_done.
 Qed.
 
-Theorem complete_select_good result o h p :
-  Inv o h p -> Good o h p (complete_select result h p).
+Theorem complete_select_good fx result o h p :
+  Inv o h p -> Good o h p (complete_select fx result h p).
 Proof. intro HI. apply Good_G. apply complete_select_G. apply StX_init. exact HI. Qed.
 
 (* ------------------------------------------------------------------ *)
@@ -696,9 +742,26 @@ End Sel.
 
 (* non-vacuity: a select state holding slot 0 completes with an integer; the source is released *)
 Example complete_select_ex :
-  match complete_select (VInt 1) wit_heap
+  match complete_select true (VInt 1) wit_heap
           (mkProc [] [] [wit_frame] false [] None (Some (mkSel 0 0 [VBin 0] [] None None)) []) with
   | MVal None h' p' => rc_at h' 0 = 0 /\ p_sel p' = None /\ p_stack p' = [VInt 1] /\ pending h' = [0]
+  | _ => False
+  end.
+Proof. vm_compute. repeat split; reflexivity. Qed.
+
+(* 09625d4: completing a select on a process forgets it: the entry disappears from `awaiting` and the
+   stored result (slot 0) is released; before the repair (false) the entry and its count stay *)
+Example complete_select_forgets :
+  match complete_select true (VInt 1) wit_heap
+          (mkProc [] [] [wit_frame] false [] None (Some (mkSel 0 0 [VProc 7 0] [] None None))
+                  [(7, Some (VBin 0))]) with
+  | MVal None h' p' => rc_at h' 0 = 0 /\ p_await p' = [] /\ pending h' = [0]
+  | _ => False
+  end /\
+  match complete_select false (VInt 1) wit_heap
+          (mkProc [] [] [wit_frame] false [] None (Some (mkSel 0 0 [VProc 7 0] [] None None))
+                  [(7, Some (VBin 0))]) with
+  | MVal None h' p' => rc_at h' 0 = 1 /\ p_await p' = [(7, Some (VBin 0))]
   | _ => False
   end.
 Proof. vm_compute. repeat split; reflexivity. Qed.
